@@ -228,6 +228,39 @@ theorem C05_manifest_complete (t : Ts.Flatten.Tree) (pre : Ts.Path.Str) :
     ((Ts.Flatten.flatten t pre).1.map (·.1) ++ (Ts.Flatten.flatten t pre).2.map (·.1)).Nodup :=
   Ts.Flatten.C15_flatten_paths_unique t pre
 
+/-- **Key safety is a condition on the user's keys.** A logical path is the `/`-join of the escaped (`_encode`d)
+string forms of the keys on the way to the leaf (C15's `Path.encode`). It is `safePath` exactly when none of those
+keys is `""`, `"."` or `".."` — escaping neither creates nor removes these three (it only rewrites `%` and `/`). -/
+theorem C05_safe_keys_iff (keys : List Ts.Path.Str) (hne : keys ≠ []) :
+    safePath (joinSlash (keys.map Ts.Path.encode)) = true ↔
+      ∀ k ∈ keys, k ≠ [] ∧ k ≠ dotStr ∧ k ≠ dotdotStr := by
+  have hnoslash : ∀ c ∈ keys.map Ts.Path.encode, cSlash ∉ c := by
+    intro c hc
+    obtain ⟨k, _, rfl⟩ := List.mem_map.mp hc
+    exact Ts.Flatten.C15_encode_no_slash k
+  have hsplit := splitSlash_joinSlash (keys.map Ts.Path.encode) hnoslash (by simpa using hne)
+  have henc : ∀ k : Ts.Path.Str, ∀ lit : Ts.Path.Str, Ts.Path.encode lit = lit →
+      (Ts.Path.encode k = lit ↔ k = lit) := by
+    intro k lit hl
+    constructor
+    · intro h; exact Ts.Flatten.C15_encode_injective k lit (by rw [h, hl])
+    · intro h; rw [h, hl]
+  have e0 : Ts.Path.encode [] = [] := by decide
+  have e1 : Ts.Path.encode dotStr = dotStr := by decide
+  have e2 : Ts.Path.encode dotdotStr = dotdotStr := by decide
+  unfold safePath
+  rw [hsplit, List.all_eq_true]
+  constructor
+  · intro h k hk
+    have := h (Ts.Path.encode k) (List.mem_map_of_mem hk)
+    simp only [safeComp, decide_eq_true_eq] at this
+    refine ⟨fun e => this.1 (by rw [e, e0]), fun e => this.2.1 (by rw [e, e1]), fun e => this.2.2 (by rw [e, e2])⟩
+  · intro h c hc
+    obtain ⟨k, hk, rfl⟩ := List.mem_map.mp hc
+    obtain ⟨h0, h1, h2⟩ := h k hk
+    simp only [safeComp, decide_eq_true_eq]
+    exact ⟨fun e => h0 ((henc k [] e0).1 e), fun e => h1 ((henc k dotStr e1).1 e), fun e => h2 ((henc k dotdotStr e2).1 e)⟩
+
 /-! ## Witnesses: the full-strength statement fails on the current tree (finding D13) -/
 
 private def s (x : String) : Str := x.toList.map Char.toNat
